@@ -184,7 +184,10 @@ def _run_once(core, cmd, lines, timeout):
     except subprocess.TimeoutExpired:
         p.kill()
         out, err = p.communicate()
-        return out.decode("latin1").splitlines(), "timeout", err.decode("latin1")[-3000:]
+        lines = out.decode("latin1").splitlines()
+        if lines and not out.endswith(b"\n"):
+            lines = lines[:-1]            # the last line of a killed process may be cut in the middle
+        return lines, "timeout", err.decode("latin1")[-3000:]
 
 
 def run_robust(core, cmd, cases, jobs=None, chunk_timeout=120, single_timeout=12, confirm=True):
@@ -336,6 +339,9 @@ def check_wfx(core, chk, b, cases, excuse, maxbuf=700, limit=10, found_so_far=Fa
         ccode = ccode.split(";")[0]
         res["emit_compared"] += 1
         if ccode != m.split()[2]:
+            if excuse(l, "emit", ""):
+                res["emit_known"] = res.get("emit_known", 0) + 1
+                continue
             res["emit_mismatch"] += 1
             if res["emit_mismatch"] <= 3:
                 chk.violation("emit_%s.json" % cid, {"kind": "bytecode written by yr_re_ast_emit_code differs from the Lean model of _yr_re_emit", "engine": "re", "harness": "h_re",
